@@ -495,8 +495,8 @@ def server_clients(ctx):
     allscs = simulated_scripts(ctx, 1500 if ctx.quick else 12000)
     # run a bounded number: every behaviour shape the model produces is represented (the rare ones in full), the rest sampled
     cap = 150 if ctx.quick else 3000
-    per = {'error-after-delivered-result': cap // 4, 'finished-unclaimed-then-gone': cap // 5, 'error-after-result': cap // 3,
-           'error-before-result': cap // 6}
+    per = {'error-after-delivered-result': cap // 5, 'finished-unclaimed-then-gone': cap // 6, 'error-after-result': cap // 4,
+           'error-before-result': cap // 8}       # (what is left of the cap - at least a third - goes to the other behaviours)
     scs, shapes = [], {}
     for sc in sorted(allscs, key=lambda x: 'error-after-delivered-result' not in x['shapes']):
         for sh in sc['shapes']:
